@@ -290,6 +290,14 @@ def extract():
         tr = Tr(c.name, param_table)
         methods, skipped = [], []
         for st in c.body:
+            # a class-level constant (`EmptyStringMessage = "..."`) is read as `self.NAME`: a one-parameter method returning it
+            if isinstance(st, (ast.Assign, ast.AnnAssign)):
+                tgt = st.targets[0] if isinstance(st, ast.Assign) and len(st.targets) == 1 else getattr(st, "target", None)
+                val = st.value
+                if isinstance(tgt, ast.Name) and isinstance(val, ast.Constant) and isinstance(val.value, (str, int)) and not isinstance(val.value, bool) \
+                        and not (tgt.id.startswith("__") and tgt.id.endswith("__")):
+                    methods.append((mangle(tgt.id, c.name), ".instance", ["self"], "[(.ret %s)]" % tr.const(val.value)))
+                continue
             if not isinstance(st, ast.FunctionDef):
                 continue
             kind = fn_kind(st)
